@@ -248,9 +248,10 @@ def _sweep_cases_opcode(draw):
 
 BAD_REPO = ["no-packages", "packages-null", "packages-list", "packages-str", "conda-null", "conda-list", "conda-str", "conda-int",
             "meta-unserializable-depth", "top-list", "not-json", "empty-file", "bad-key-short", "bad-key-upper", "bad-key-type",
-            "fname-not-str", "info-deep"]
+            "fname-not-str", "info-deep", "info-deep-big"]
 BAD_GPG = ["unknown-fpr", "upper-fpr", "short-fpr", "list-good-bad", "tuple-good-bad", "list-good", "none-fpr", "create-raises", "export-raises",
-           "no-sslib", "not-json", "not-signable", "signed-unserializable", "junk-sig-deep"]
+           "no-sslib", "not-json", "not-signable", "signed-unserializable", "junk-sig-deep", "comma-good-bad", "comma-good-trailing",
+           "comma-good-good-bad", "blank-good-bad"]
 
 
 def _deep(n):
@@ -303,7 +304,7 @@ def check_bad(case):
                 key = seed
             elif bad == "fname-not-str":
                 fname = fn.encode()
-            elif bad in ("meta-unserializable-depth", "info-deep"):
+            elif bad in ("meta-unserializable-depth", "info-deep", "info-deep-big"):
                 pass
             original = canon(doc) if bad not in ("not-json", "empty-file") else (b"{\"packages\": {" if bad == "not-json" else b"")
             if bad == "meta-unserializable-depth":
@@ -311,9 +312,14 @@ def check_bad(case):
                 original = b'{"packages": {"a-1.0-0.tar.bz2": {"name": "a"}, "b-1.0-0.tar.bz2": ' + b"[" * 800 + b"]" * 800 + b"}}"
             if bad == "info-deep":
                 original = b'{"info": ' + b"[" * 800 + b"]" * 800 + b', "packages": {"a-1.0-0.tar.bz2": {"name": "a"}}}'
+            if bad == "info-deep-big":
+                # the same with 17 000 artifacts (a streaming / incremental writer that only kicks in for big documents has
+                # already truncated the file when the serialization of "info" fails)
+                pk = b", ".join(b'"p%05d-1.0-0.tar.bz2": {"name": "p%05d"}' % (i, i) for i in range(17000))
+                original = b'{"info": ' + b"[" * 800 + b"]" * 800 + b', "packages": {' + pk + b"}}"
             with open(fn, "wb") as f:
                 f.write(original)
-            if bad in ("meta-unserializable-depth", "info-deep"):
+            if bad in ("meta-unserializable-depth", "info-deep", "info-deep-big"):
                 sys.setrecursionlimit(400)
             if case["via_cli"] and bad not in ("bad-key-type", "fname-not-str"):
                 kf = os.path.join(d, "key.hex")
@@ -348,6 +354,12 @@ def check_bad(case):
                 arg = [good]
             elif bad == "none-fpr":
                 arg = None
+            elif bad.startswith("comma-") or bad.startswith("blank-"):
+                # several fingerprints in one argument: not a fingerprint (if a front end ever splits it, a failure at a later
+                # key must not leave the signatures of the earlier ones in the file)
+                sep = "," if bad.startswith("comma-") else " "
+                arg = {"comma-good-bad": good + sep + unknown, "comma-good-trailing": good + sep, "comma-good-good-bad": good + sep + " " + good + sep + unknown,
+                       "blank-good-bad": good + sep + unknown}[bad]
             elif bad == "create-raises":
                 stub.fail_create = gpgstub.CommandError("gpg: signing failed: Operation cancelled")
             elif bad == "export-raises":
@@ -366,7 +378,7 @@ def check_bad(case):
                 f.write(original)
             if bad in ("signed-unserializable", "junk-sig-deep"):
                 sys.setrecursionlimit(400)
-            if case["via_cli"] and isinstance(arg, str):
+            if (case["via_cli"] or bad.startswith(("comma-", "blank-"))) and isinstance(arg, str):
                 def call():
                     rc = CLI.cli(["gpg-sign", arg, fn])
                     if rc in (None, 0):
